@@ -8,7 +8,8 @@ CHECKS = {
    text="Lean 4 theorems over the executable model of `_function_call` and the call productions: acceptance is exactly membership of "
         "the OData 4.01 table with the count in range (accept_iff), exact exception payloads (unknown_payload, argcount_payload), any "
         "arity in other namespaces; the function table is re-extracted from /repo on every run and tied to the model by `decide`; the "
-        "parser model is run against the real parser on every (name x arity) pair.",
+        "parser model is run against the real parser on every (name x arity) pair, incl. near-miss names (case, mangled / missing namespace, Unicode compatibility letters), named "
+        "parameters in and out of order and with REPEATED names, and on a parser instance that has just failed.",
    note="Trusted: Lean kernel; axioms propext/Classical.choice/Quot.sound; Spec/Builtins.lean typed in from OData 4.01; T-gen/T-corr harness. "
         "Modelled, not verified: SLY's LALR construction and CPython's re (tied by exhaustive differential run over names x arities).",
    design="§6 C11", technique="Lean 4 proof over hand-written model + generated-table tie theorem (decide) + exhaustive differential correspondence"),
@@ -37,7 +38,8 @@ CHECKS = {
         "document-order list of all nodes (preorder, each_once, dispatch), a transformer without overrides is the identity (transform_id, "
         "for every tree), an override for one kind changes exactly the nodes of that kind (transform_override, both handler styles), "
         "override_absent_kind; wf_toTree shows every typed AST has the assumed shape. Instrumented subclasses of the real base classes are "
-        "run against the model on random full-grammar trees; == and non-mutation (every shipped visitor on a deep copy) are checked by execution.",
+        "run against the model on random full-grammar trees; == and non-mutation (every shipped visitor on a deep copy) are checked by execution; one instance of each visitor kind reused "
+        "after 1 / 30 / 300+ traversals aborted by an exception from a handler must handle legal trees as a fresh instance does.",
    note="Trusted: Lean kernel, standard axioms, Spec/Traversal.lean, harness. Partial: non-mutation of Python objects, list aliasing and `==` are "
         "runtime facts - covered by the correspondence run only.",
    design="§6 C16", technique="Lean 4 proof (mutual structural recursion) + instrumented differential correspondence + runtime before/after comparison"),
@@ -219,7 +221,7 @@ CHECKS = {
         "translate to trees with the same skeleton. Tie theorems: every literal handler's return expression, re-extracted from the source on every run, is Value(...) / literal(...) "
         "(orm_literals_are_parameters). Executed: model parameters found among the real compiled parameters for every well-typed filter; 28 templates x literal pairs of every kind and in-lists of "
         "3 / 101 / 120+ elements through the four shorthand entry styles - compiled SQL (post-compile parameters rendered) identical, values only in the parameter list; plain-text against "
-        "regex-metacharacter patterns; for every environment variable the library's source reads (none on the pinned tree) the same judge in a process of its own with the variable set.",
+        "regex-metacharacter patterns; columns of other declared types (Uuid, Numeric, Enum, Interval, Text, BigInteger, Date / DateTime / Time) on Core and ORM compiled for SQLite and PostgreSQL; for every environment variable the library's source reads (none on the pinned tree) the same judge in a process of its own with the variable set.",
    note="Trusted: Lean kernel, standard axioms, harness; that Value()/literal() compile to placeholders is Django's / SQLAlchemy's behaviour, observed on the compiled statements. Known finding: autoescape "
         "adds ESCAPE '/' only for literal substrings with a wildcard (Lean witness kf_autoescape; consequence of fix e81d1f7).",
    design="§6 C08", technique="Lean 4 proof (parameters = literals, skeleton invariance, by structural induction with handler plans) + tie theorems on literal-handler source + differential compilation through the real shorthands"),
